@@ -259,6 +259,17 @@ def generic_replay(path):
         if isinstance(w, dict) and 'model' in w:
             from . import e1
             v = e1.replay(w['model'], w['params'], w['history'])
+        elif isinstance(w, dict) and 'rerun' in w:
+            # fast exhaustive checks: re-run the named part of the check and
+            # keep the violations carrying the recorded key
+            import importlib
+            mod = importlib.import_module(w['rerun']['module'])
+            r = Result(d['property'], 'quick', seed_from_env(), 'other')
+            r.max_violations = 10 ** 6
+            r.known = {}
+            getattr(mod, w['rerun']['func'])(r, *w['rerun'].get('args', []))
+            v = [(x.key, x.message) for x in r.violations
+                 if x.key == d['key']][:3]
         elif isinstance(w, dict) and 'replay' in w:
             import importlib
             mod = importlib.import_module(w['replay']['module'])
